@@ -45,11 +45,12 @@ def _needle_value(rng, nbytes):
     return fill[:k] + nd + fill[k + len(nd):]
 
 
-def gen_messages(drv, rng, count, level=2, max_subsets=3, needle_p=0.5, categories=(0, 1, 2, 2, 2, 7, 12, 255)):
+def gen_messages(drv, rng, count, level=2, max_subsets=3, needle_p=0.5, categories=(0, 1, 2, 2, 2, 7, 12, 255), tweak=None):
     """-> list of Msg (valid messages of the bundled default tables).
     About half of them start their data section with a character element whose value carries `BUFR` /
     `7777` (byte aligned, so the signature really occurs in the message bytes); some carry a section 2
-    (empty, or with the signature in its local bits)."""
+    (empty, or with the signature in its local bits).  tweak(rng, json_sections, edition, sec2), when given, may
+    change the encoder input in place (C11 varies the section parameters that do not influence decoding)."""
     treq = tables_io.group_request()
     tg_strings = None
     cases = P.gen_cases(rng, count, level=level, max_subsets=max_subsets)
@@ -88,6 +89,8 @@ def gen_messages(drv, rng, count, level=2, max_subsets=3, needle_p=0.5, categori
             ov['local_bits'] = sec2
         js = C.make_message_json(c.ids, P.py_inputs(c.valss), c.comp, edition=c.edition, overrides=ov,
                                  sec2=sec2)
+        if tweak is not None:
+            tweak(rng, js, c.edition, sec2)
         st, b, _ = C.impl_encode(js)
         if st != 'ok':
             continue
@@ -212,9 +215,13 @@ def exc_detail(e):
     return {'exc': name, 'where': where, 'layer': layer}
 
 
-def scan_req(s, info_only=False, continue_on_error=False, model_filter=None, ignore_expect=False):
-    return {'op': 'scan', 'hex': s.hex(), 'info_only': info_only, 'continue': continue_on_error,
-            'ignore_expect': ignore_expect, 'filter': model_filter}
+def scan_req(s, info_only=False, continue_on_error=False, model_filter=None, ignore_expect=False, fexpr=None):
+    """model_filter: conjunction of [mdexpr, op, int] clauses; fexpr: a general filter tree (harness/filters.py)"""
+    r = {'op': 'scan', 'hex': s.hex(), 'info_only': info_only, 'continue': continue_on_error,
+         'ignore_expect': ignore_expect, 'filter': model_filter}
+    if fexpr is not None:
+        r['fexpr'] = fexpr
+    return r
 
 
 def model_items(s, resp):
